@@ -684,11 +684,11 @@ class Exec:
                 arr = self.load(st, x); base, ln, path0, off = x.obj, len(arr), x.path, 0
             elif isinstance(x, BytesV): raise Unsupported('index into []byte(string)')
             else: raise Panic('index of nil')
-            return self.index_fork(st, fr, ins, i, ln, lambda s, k: s.frames[-1].regs.__setitem__(ins['reg'], Ptr(base, path0 + (off + k,))))
+            return self.index_fork(st, fr, ins, i, ln, lambda s, f, k: f.regs.__setitem__(ins['reg'], Ptr(base, path0 + (off + k,))))
         elif op == 'Index':
             x = V(ins['x']); i = V(ins['index'])
             if isinstance(x, ArrayV):
-                return self.index_fork(st, fr, ins, i, len(x), lambda s, k: s.frames[-1].regs.__setitem__(ins['reg'], self.force(s, x[k])))
+                return self.index_fork(st, fr, ins, i, len(x), lambda s, f, k: f.regs.__setitem__(ins['reg'], self.force(s, x[k])))
             raise Unsupported('Index on ' + repr(x))
         elif op == 'BinOp':
             R[ins['reg']] = self.binop(st, ins, V(ins['x']), V(ins['y']))
@@ -1005,13 +1005,13 @@ class Exec:
         if z3.is_bv_value(i):
             k = i.as_signed_long() if self_signed_index(i) else i.as_long()
             if k < 0 or k >= ln: raise Panic(f'index out of range [{k}] with length {ln}')
-            setter(st, k); return None
+            setter(st, fr, k); return None
         self.check_fault(st, z3.Or(i < 0, i >= ln) if i.size() == 64 else z3.UGE(z3.ZeroExt(64 - i.size(), i), ln), f'index out of range (len {ln})')
         out = []
         for k in range(ln):
             c = i == k
             if self.feasible(st.pc, c):
-                s2 = st.fork(); s2.pc.append(c); setter(s2, k); out.append(s2)
+                s2 = st.fork(); s2.pc.append(c); setter(s2, s2.frames[-1], k); out.append(s2)
         st.status = 'split'; return out
 
     def slice_op(self, st, fr, ins):
